@@ -406,7 +406,23 @@ fn gen_scenario(rng: &mut Rng, thorough: bool, n_ops: usize) -> Option<(Scenario
     cfg.script_weight = 20;
     let burst = events_only || rng.chance(1, 4);
     let join_family = !burst && rng.chance(1, 5);
-    let program = if join_family {
+    // over the bridge several threads may answer the *same* stream id at once (ids, unlike typed
+    // request objects, can be shared): builder-chain subscriptions keep no state between items,
+    // so two items commute up to the order of their events
+    let stream_family = bridge != 0 && !burst && !join_family && rng.chance(1, 2);
+    let program = if stream_family {
+        let k = rng.range(1, 2) as u32;
+        let mut parts: Vec<Cmd> = (1..=k)
+            .map(|i| {
+                let c = Cmd::Chain(Chain { head: Head::Stream(i), stages: vec![] }, 10 * i);
+                if rng.chance(1, 3) { Cmd::MapEvent(Box::new(c), 3) } else { c }
+            })
+            .collect();
+        if rng.chance(1, 2) {
+            parts.push(Cmd::Async(Script { instrs: vec![Instr::Req { site: 40, arg: None }, Instr::Emit { tag: 41, reg: Some(0) }] }));
+        }
+        if parts.len() == 1 { parts.pop().unwrap() } else { Cmd::All(parts) }
+    } else if join_family {
         // a task waiting on several requests at once (join / select), possibly inside wrappers:
         // resolving two of them from two threads is where a task's last waker changes hands
         let k = rng.range(2, 3) as u32;
@@ -497,6 +513,7 @@ fn gen_scenario(rng: &mut Rng, thorough: bool, n_ops: usize) -> Option<(Scenario
             let choice = if burst && !ops.is_empty() { rng.below(2) } else { rng.below(20) };
             let choice = if burst && ops.is_empty() { 10 } else { choice };
             let choice = if join_family && rng.chance(4, 5) { 10 } else { choice };
+            let choice = if stream_family && rng.chance(5, 6) { 10 } else { choice };
             let op = match choice {
                 0 => Some(ConcOp::View),
                 1 => Some(ConcOp::Act(Action::Noop)),
@@ -550,7 +567,8 @@ fn gen_scenario(rng: &mut Rng, thorough: bool, n_ops: usize) -> Option<(Scenario
         let mut clash = false;
         for op in &ops {
             if let ConcOp::Act(Action::Resolve { site, arg, .. }) | ConcOp::Act(Action::DropReq { site, arg }) = op {
-                if keys.contains(&(*site, *arg)) {
+                let shared_stream_id = bridge != 0 && out.iter().any(|o| o.key == (*site, *arg) && o.kind == KIND_MANY);
+                if keys.contains(&(*site, *arg)) && !shared_stream_id {
                     clash = true;
                 }
                 keys.push((*site, *arg));
@@ -1621,6 +1639,19 @@ fn main() {
         };
         made += 1;
         let scn_hash = hash_json(&scn);
+        {
+            let mut keys: Vec<Key> = vec![];
+            let mut shared = false;
+            for op in &scn.ops {
+                if let ConcOp::Act(Action::Resolve { site, arg, .. }) = op {
+                    shared |= keys.contains(&(*site, *arg));
+                    keys.push((*site, *arg));
+                }
+            }
+            if shared {
+                report.lock().unwrap().count("scenarios_answering_one_stream_id_from_two_threads", 1);
+            }
+        }
         let record = |r: &mut Report, res: &RunResult, schedule: &str, extra: Value| {
             for (sig, what, detail) in &res.findings {
                 r.violation(
